@@ -201,6 +201,7 @@ package cert
 //@   ensures @C06 oid != nil && oidv(oid) == specExtOid(i)
 
 //@ func NewKeyUsage returns (res)
+//@   bounded TestVerifBoundedExtensions
 //@   props C06 C07
 //@   uses ext.smt2
 //@   given EXTOIDS
@@ -226,6 +227,7 @@ package cert
 //@   ensures @C07,C16 err == nil && bytes(b) == tlv(2, 7, false, bcat(bcat(bcat(bunit(g[0]), bunit(g[1])), bunit(g[2])), bunit(g[3])))
 
 //@ func NewSubjectAlternativeName returns (res, err)
+//@   bounded TestVerifBoundedExtensions
 //@   props C06 C07
 //@   uses ext.smt2
 //@   given EXTOIDS
@@ -237,6 +239,7 @@ package cert
 //@     invariant @C07 catNames(old(seq(names)), idx, BufContent(nameBuffer)) == catNames(old(seq(names)), 0, #bempty)
 
 //@ func NewBasicConstraints returns (res)
+//@   bounded TestVerifBoundedExtensions
 //@   props C06 C07
 //@   uses ext.smt2
 //@   given EXTOIDS
@@ -247,6 +250,7 @@ package cert
 //@   ensures @C07 isCa ==> bytes(res.Value) == bcSpec(true, true, pathLen)
 
 //@ func NewCertificatePolicies returns (res, err)
+//@   bounded TestVerifBoundedExtensions
 //@   props C06 C07
 //@   uses ext.smt2
 //@   given EXTOIDS
@@ -255,6 +259,7 @@ package cert
 //@   ensures err != nil ==> res == nil
 
 //@ func NewExtendedKeyUsage returns (res, err)
+//@   bounded TestVerifBoundedExtensions
 //@   props C06 C07
 //@   uses ext.smt2
 //@   given EXTOIDS
@@ -263,6 +268,7 @@ package cert
 //@   ensures err != nil ==> res == nil
 
 //@ func NewAuthorityKeyIdentifierFromStruct returns (res, err)
+//@   bounded TestVerifBoundedExtensions
 //@   props C06 C07
 //@   uses ext.smt2
 //@   given EXTOIDS
@@ -271,6 +277,7 @@ package cert
 //@   ensures err != nil ==> res == nil
 
 //@ func NewOcspNoCheck returns (res)
+//@   bounded TestVerifBoundedExtensions
 //@   props C06 C07
 //@   uses ext.smt2
 //@   given ocspNoCheck.Critical == false && ocspNoCheckCritical.Critical == true && oidv(ocspNoCheck.Id) == specExtOid(12) && oidv(ocspNoCheckCritical.Id) == specExtOid(12) && len(ocspNoCheck.Value) == 2 && ocspNoCheck.Value[0] == 5 && ocspNoCheck.Value[1] == 0 && len(ocspNoCheckCritical.Value) == 2 && ocspNoCheckCritical.Value[0] == 5 && ocspNoCheckCritical.Value[1] == 0
@@ -297,6 +304,7 @@ package cert
 //@   ensures err != nil ==> res == nil
 
 //@ func NewAuthorityInfoAccess returns (res, err)
+//@   bounded TestVerifBoundedExtensions
 //@   props C06 C07
 //@   uses ext.smt2
 //@   given EXTOIDS
